@@ -67,7 +67,7 @@ Proof.
     intro H. inversion H. subst. apply noresp_nil. simpl. exact Hm.
   - unfold wrap0. destruct (handle_msg s m) as [x | |] eqn:E; simpl; try discriminate.
     intro H. inversion H. subst.
-    destruct (handle_msg_shape s m s' Hm E) as [L | [F | [[s1 [L [R Hc]]] | [s1 [L [R Hld]]]]]].
+    destruct (handle_msg_shape s m s' Hm E) as [L | [[F _] | [[s1 [L [R Hc]]] | [s1 [L [R Hld]]]]]].
     + apply noresp_nil. destruct L as [_ [_ [_ [_ [L _]]]]]. congruence.
     + congruence.
     + assert (M1 : n_msgs s1 = []) by (destruct L as [_ [_ [_ [_ [L _]]]]]; congruence).
@@ -120,8 +120,8 @@ Lemma deliver_appents_leader_commit s m s' pi pt cm oe :
   n_msgs s = [] -> handle_msg s m = Ret s' -> m_body m = AppEnts pi pt cm oe -> n_role s' = Leader -> n_commit s' = n_commit s.
 Proof.
   intros Hm H Hb Hl.
-  destruct (handle_msg_shape s m s' Hm H) as [L | [F | [[s1 [L [R Hc]]] | [s1 [L [R Hld]]]]]].
-  - destruct L as [_ [_ [_ [_ [_ L]]]]]. exact L.
+  destruct (handle_msg_shape s m s' Hm H) as [L | [[F _] | [[s1 [L [R Hc]]] | [s1 [L [R Hld]]]]]].
+  - destruct L as [_ [_ [_ [_ [_ [L _]]]]]]. exact L.
   - congruence.
   - exfalso. revert Hc. unfold handle_candidate. rewrite Hb. intro X. inversion X. subst. simpl in Hl. discriminate.
   - exfalso. revert Hld. unfold handle_leader. rewrite Hb. discriminate.
